@@ -114,7 +114,16 @@ impl Analyzable for WithdrawalField {
 
 impl Analyzable for WithdrawalBlock {
     fn analyze(&mut self, parent: Option<Rc<Scope>>) -> AnalyzeReport {
-        self.fields.analyze(parent)
+        let mut missing = AnalyzeReport::default();
+
+        for key in ["from", "amount"] {
+            if self.find(key).is_none() {
+                missing = missing
+                    + crate::analyzing::Error::missing_field(key, "withdrawal", self).into();
+            }
+        }
+
+        self.fields.analyze(parent) + missing
     }
 
     fn is_resolved(&self) -> bool {
